@@ -15,7 +15,7 @@
    an evicted job is pending again at once, demand per leaf is constant, so fair shares are constant;
    they are NOT computed here but chosen nondeterministically in Init among all vectors that satisfy
    the fair-share contract (C09: FairShareContract) - the result therefore holds for every division
-   the contract allows, and TLC shows with `Contract <- FALSE`-style variants what each rule is for:
+   the contract allows, and TLC shows with the rule switches what each rule is for:
      * with every rule: no behaviour evicts forever                            (C15_EventuallyQuiet)
      * without CanReclaim or with M < 1: TLC exhibits the eviction cycle       (non-vacuity)
    The initial states are exported as scenarios and run on the real scheduler for 8 cycles, where
@@ -51,22 +51,33 @@ Used   == Sum(Leaves, LAMBDA c : run[c])
 Min2(a, b) == IF a < b THEN a ELSE b
 
 \* ---- the fair-share contract (C09), for one parent with total t2 (half GPUs) ----
-ContractFor(t2, qs) ==
-  LET want2(q) == 2 * Req(q)
-      need     == Sum(qs, LAMBDA q : Min2(2 * des[q], want2(q)))
-  IN /\ \A q \in qs : fair2[q] <= want2(q)                                   \* never above the request
-     /\ Sum(qs, LAMBDA q : fair2[q]) = Min2(t2, Sum(qs, want2))               \* nothing wasted, nothing invented
-     /\ need <= t2 => \A q \in qs : fair2[q] >= Min2(2 * des[q], want2(q))    \* deserved first
-Contract == /\ ContractFor(2 * Total, Depts)
-            /\ \A d \in Depts : ContractFor(fair2[d], Children(d))
+Want2(q) == 2 * Req(q)
+\* all ways to split `target` half-GPUs over the queues qs, nobody above its request
+RECURSIVE Splits(_, _)
+Splits(qs, target) ==
+  IF qs = {} THEN (IF target = 0 THEN {<<>>} ELSE {})
+  ELSE LET q == CHOOSE x \in qs : \A y \in qs : x <= y
+           rest == qs \ {q}
+       IN UNION {{(q :> v) @@ f : f \in Splits(rest, target - v)} : v \in 0..Min2(Want2(q), target)}
+\* the divisions of t2 over qs that the contract allows: nothing wasted, nothing invented, nobody
+\* above its request, and - when the deserved quotas fit - everybody gets its deserved quota first
+Divisions(t2, qs) ==
+  LET need == Sum(qs, LAMBDA q : Min2(2 * des[q], Want2(q)))
+  IN {f \in Splits(qs, Min2(t2, Sum(qs, Want2))) :
+        (UseContract /\ need <= t2) => \A q \in qs : f[q] >= Min2(2 * des[q], Want2(q))}
+RECURSIVE WithLeaves(_, _)
+WithLeaves(ds, acc) ==
+  IF ds = {} THEN {acc}
+  ELSE LET d == CHOOSE x \in ds : \A y \in ds : x <= y
+       IN UNION {WithLeaves(ds \ {d}, acc @@ f) : f \in Divisions(acc[d], Children(d))}
+FairVectors == UNION {WithLeaves(Depts, fd) : fd \in Divisions(2 * Total, Depts)}
 
 Init ==
   /\ run \in [Leaves -> 0..MaxReq] /\ pend \in [Leaves -> 0..MaxReq]
   /\ \A q \in Leaves : run[q] + pend[q] <= MaxReq
   /\ Used <= Total
   /\ \E dl \in [Leaves -> Quotas] : des = [q \in Queues |-> IF q \in Leaves THEN dl[q] ELSE Sum(Children(q), LAMBDA c : dl[c])]
-  /\ fair2 \in [Queues -> 0..(2 * Total)]
-  /\ UseContract => Contract
+  /\ fair2 \in FairVectors
   /\ evictions = 0
 
 \* ---- the rules ----
